@@ -9,8 +9,8 @@ use serde_json::json;
 use std::collections::HashMap;
 use std::sync::Mutex;
 
-const TOKENS: [&str; 10] = ["word", "\n", "*/", "/*", "//", "\"\"\"", "'''", "\\", "#", "`"];
-const TOKEN_NAMES: [&str; 10] = ["word", "NL", "*/", "/*", "//", "\"\"\"", "'''", "backslash", "#", "backtick"];
+const TOKENS: [&str; 12] = ["word", "\n", "*/", "/*", "//", "\"\"\"", "'''", "\\", "#", "`", "\"", "'"];
+const TOKEN_NAMES: [&str; 12] = ["word", "NL", "*/", "/*", "//", "\"\"\"", "'''", "backslash", "#", "backtick", "\"", "'"];
 const SYNTAXES: [&str; 3] = ["line", "block", "attr"];
 const POSITIONS: [&str; 6] = ["type", "field", "unit-variant", "variant", "variant-field", "alias"];
 
@@ -225,7 +225,7 @@ pub fn run(args: &[String]) -> i32 {
     let tier = report::tier_from_env(args);
     let mut rep = Report::new("C15", &tier);
     controls(&mut rep);
-    let max_len = if rep.thorough() { 3 } else { 2 };
+    let max_len = if rep.thorough() { 4 } else { 3 };
     let (accs, stats) = explore(
         |ch| {
             gen(ch, max_len);
